@@ -9,11 +9,11 @@ From Verif Require Import SendReq.Model SendReq.ProofsBound SendReq.ProofsSelect
    after that send and its target *)
 Fixpoint loop_pre (c : cfg) (script : list outcome) (s : state) (prev : option (nat * outcome)) (i : nat) : option (list event * state * nat) :=
   match pre false c s prev i with
-  | HDone r evs => None
+  | HDone _ r evs => None
   | HRetry s1 evs1 =>
       let s1' := if 0 <? i then set_q_retry true s1 else s1 in
       match sel_phase c s1' with
-      | SDone r evs2 => None
+      | SDone _ r evs2 => None
       | SSent s2 t evs2 =>
           let ev := EAtt t (q_rr s2) (q_stale s2) (q_retry s2) in
           let s3 := raise_att c i (after_send s2 t) in
